@@ -190,8 +190,11 @@ class ParamResolver:
             exponent = self.value_of(value.args[1], recursive)
             # Casts because numpy can handle expressions (by delegating to __pow__), but does
             # not have signature that will support this.
-            if isinstance(base, numbers.Number):
+            if _is_plain_number(base) and _is_plain_number(exponent):
                 return np.float_power(cast(complex, base), cast(complex, exponent))
+            if isinstance(base, sympy.Basic) or isinstance(exponent, sympy.Basic):
+                # One side is still symbolic: keep the power as a formula.
+                return base**exponent
             return np.power(cast(complex, base), cast(complex, exponent))
 
         # Input is either a sympy formula or the dictionary maps to a
@@ -297,6 +300,10 @@ class ParamResolver:
     @classmethod
     def _from_json_dict_(cls, param_dict, **kwargs):
         return cls(dict(param_dict))
+
+
+def _is_plain_number(val: Any) -> bool:
+    return isinstance(val, numbers.Number) and not isinstance(val, sympy.Basic)
 
 
 def _resolve_value(val: Any) -> Any:
